@@ -90,7 +90,7 @@ def _forced(col, ctx, np, shard):
     exact = not (pool == 'offset' and prec == 'float32')
     tol = TOL[prec]
     n = 2 * maxB
-    S, W = (3, 2) if kind == 'partitioned' else (2, 1)
+    S, W = (3, 2) if kind == 'partitioned' else (7, 1)          # 7 samples: more than, and not a multiple of, the thread counts 2, 3, 4
     seen_states = set()
     for K in ksizes:
         rng = rng_for(seed, 'c11', kind, pool, K)
